@@ -13,6 +13,8 @@ THEOREMS = ["EngineModel.Properties.C04." + t for t in [
     "C04_setter_frame_hot_cues", "C04_setter_frame_average_loudness", "C04_setter_frame_key",
     "C04_setter_frame_sample_count", "C04_setter_frame_sample_rate", "C04_setter_frame_beatgrid",
     "C04_setter_frame_loops", "C04_setter_frame_waveform", "C04_setter_frame_column_setters",
+    "C04_stored_payloads", "C04_written_payloads", "C04_setter_untouched_columns", "C04_column_only_setters",
+    "C04_column_only_setters_bytes", "C04_fixed_field_setters_bytes", "C04_slot_setters_bytes",
 ]]
 ASSUMPTIONS = [
     "payload level: compressed bytes are not compared (the harness recovers the payload of the re-encoded blob with "
